@@ -50,6 +50,9 @@ def sha(b):
     return hashlib.sha256(b).hexdigest()
 
 
+HELPER = "checks_shared.py"
+
+
 class World:
     """the harness' view of the project: tests per file, each test = (payload expr, suffix or None, snapshot arg text or None)"""
 
@@ -72,7 +75,9 @@ class World:
 
     def add_test(self, fname, payload=None):
         self.counter += 1
-        self.files.setdefault(fname, {})[f"test_{self.counter}"] = {"payload": payload or self.new_payload(), "arg": None}
+        prefix = "check_" if fname == HELPER else "test_"
+        # module_level: the data is outsourced while the module is imported (a constant), not inside the test
+        self.files.setdefault(fname, {})[f"{prefix}{self.counter}"] = {"payload": payload or self.new_payload(), "arg": None, "module_level": self.rng.random() < 0.2}
 
     def source(self, fname, args=None):
         L = ["from inline_snapshot import snapshot, outsource, external", "from inline_snapshot import external as ext", "", "", "def _boom(x):", "    raise RuntimeError('bug in the code under test')", ""]
@@ -81,7 +86,15 @@ class World:
             if t.get("broken"):
                 p = f"_boom({p})"  # the test raises before its snapshot is evaluated
             call = f"outsource({p})" if sfx is None else f"outsource({p}, suffix={sfx!r})"
+            if t.get("module_level") and not t.get("broken"):
+                L += [f"DATA_{name} = {call}", ""]
+                call = f"DATA_{name}"
             L += [f"def {name}():", f"    assert {call} == snapshot({t['arg'] or ''})", ""]
+        if fname == "test_a.py" and HELPER in self.files:
+            # the assertions (and the references) live in a module that is executed but not collected itself
+            L.insert(0, "import checks_shared")
+            for name in self.files[HELPER]:
+                L += [f"def test_via_{name}():", f"    checks_shared.{name}()", ""]
         return "\n".join(L) + "\n"
 
     def sync_from_disk(self, proj):
@@ -126,6 +139,7 @@ def matches(ref, name):
 SCRIPTS = [
     (12, [("none", "create"), ("break_test", "trim"), ("none", "none")]),
     (12, [("none", "create"), ("alias_reference", "trim"), ("none", "none"), ("none", "disable")]),
+    (12, [("add_helper_check", "create"), ("none", "trim"), ("none", "none"), ("none", "disable")]),
     (12, [("none", "create"), ("same_bytes_other_suffix", "create"), ("none", "none"), ("none", "disable")]),
     (12, [("none", "all"), ("break_test", "all"), ("none", "disable")]),
     (8, [("none", "create"), ("change_hash_length:16", "trim"), ("none", "none"), ("none", "disable")]),
@@ -158,7 +172,7 @@ def run_history(rng, args, out, C, hidx, script=None):
         proj.write({"pyproject.toml": "\n".join(pp) + "\n"})
         steps = []
         for step in range(len(script[1]) if script else rng.randint(4, 8)):
-            edit = rng.choice(["none", "change_data", "change_data", "add_test", "remove_test", "add_file", "equal_payloads", "change_hash_length", "shorten_reference", "break_test", "same_bytes_other_suffix", "alias_reference"]) if step else "none"
+            edit = rng.choice(["none", "change_data", "change_data", "add_test", "remove_test", "add_file", "equal_payloads", "change_hash_length", "shorten_reference", "break_test", "same_bytes_other_suffix", "alias_reference", "add_helper_check"]) if step else "none"
             forced_len = None
             if script:
                 edit, forced_flag = script[1][step]
@@ -180,6 +194,9 @@ def run_history(rng, args, out, C, hidx, script=None):
             elif edit == "equal_payloads" and len(fnames) > 1:
                 src_t = rng.choice(list(w.files["test_a.py"].values()))
                 w.add_test("test_b.py", payload=src_t["payload"])
+            elif edit == "add_helper_check":
+                w.add_test(HELPER)
+                C["helper_module_steps"] = C.get("helper_module_steps", 0) + 1
             elif edit == "alias_reference" and w.files[f0]:
                 # the user refers to the external through another name for the same function
                 cands = [t for t in w.files[f0].values() if t["arg"] and t["arg"].startswith("external(")]
@@ -221,7 +238,7 @@ def run_history(rng, args, out, C, hidx, script=None):
                 fname_flag, fargs, stdin = next(f for f in FLAGSETS if f[0] == forced_flag)
             only = None
             if len(w.files) > 1 and rng.random() < 0.3 and not script:
-                only = rng.choice(list(w.files))
+                only = rng.choice([f for f in w.files if f != HELPER])
             sargs = list(fargs) + ([only] if only else [])
             env = {"FORCE_COLOR": "true"} if stdin else None
             r = session.run_session(proj, sargs, env=env, stdin=stdin)
@@ -267,7 +284,7 @@ def run_history(rng, args, out, C, hidx, script=None):
             # I5 removal only by approved trim and only if unreferenced by participating files
             removed = [n for n in before if "-new." not in n and n not in after]
             trim_ok = fname_flag in ("trim", "all") or (fname_flag.startswith("review") and stdin.split(b"\n")[2:3] == [b"y"]) or fname_flag == "review-yyyy"
-            participating = [only] if only else list(w.files)
+            participating = ([only] + ([HELPER] if only == "test_a.py" and HELPER in w.files else [])) if only else list(w.files)
             refs_part = [ref for f in participating if f in texts for ref in references(texts[f])]
             for n in removed:
                 events.append("removed")
